@@ -26,6 +26,7 @@ type OLVM struct {
 	nonce     map[string]uint64
 	contracts map[string]ethcmn.Address // name -> address
 	pending   map[string]pendingCreate  // tx hash note -> info
+	Mixed     bool                      // only sandwiches of plain EVM transfers and native transfers (exact per-account accounting)
 	OneTx     bool                      // at most one OLVM tx per block (accounting histories)
 	Hostile   bool
 }
@@ -103,6 +104,20 @@ func (o *OLVM) create(c *Ctx, from *world.Account, name string, runtime []byte, 
 	return sp
 }
 
+// sandwich: an OLVM transaction, native transfers that change the same accounts' balances, and another OLVM
+// transaction of the same sender, all in one block.
+func (o *OLVM) sandwich(c *Ctx, a, b *world.Account) []hist.TxSpec {
+	var out []hist.TxSpec
+	to := ethcmn.BytesToAddress(b.Addr)
+	u := c.W.Users[0]
+	out = append(out, o.tx(c, a, &to, big.NewInt(1000+c.R.Int63n(1000)), nil, 21000, "plain transfer (before native transfers in the same block)"))
+	s1 := Build(c, "SEND", txb.Send(u.Addr, a.Addr, "OLT", "100"), "native transfer to an account the EVM just used", u)
+	s2 := Build(c, "SEND", txb.Send(u.Addr, b.Addr, "OLT", "50"), "native transfer to an account the EVM just credited", u)
+	out = append(out, s1, s2)
+	out = append(out, o.tx(c, a, &to, big.NewInt(2000+c.R.Int63n(1000)), nil, 21000, "plain transfer (after native transfers in the same block)"))
+	return out
+}
+
 func word(b []byte) []byte {
 	out := make([]byte, 32)
 	copy(out[32-len(b):], b)
@@ -122,6 +137,15 @@ func (o *OLVM) Plan(c *Ctx) []hist.TxSpec {
 	es := c.W.EthUsers
 	var out []hist.TxSpec
 	e1 := ethcmn.BytesToAddress(es[1].Addr)
+	if o.Mixed {
+		// only plain EVM transfers interleaved with native transfers touching the same accounts
+		a, b := es[pick(c.R, len(es))], es[pick(c.R, len(es))]
+		out = append(out, o.sandwich(c, a, b)...)
+		if c.R.Intn(2) == 0 {
+			out = append(out, o.sandwich(c, b, a)...)
+		}
+		return out
+	}
 	switch o.n {
 	case 1:
 		out = append(out, o.tx(c, es[0], &e1, big.NewInt(12345), nil, 21000, "plain transfer"))
@@ -135,6 +159,8 @@ func (o *OLVM) Plan(c *Ctx) []hist.TxSpec {
 		out = append(out, o.create(c, es[1], "log", rtLog, big.NewInt(0)))
 	case 6:
 		out = append(out, o.create(c, es[0], "loop", rtLoop, big.NewInt(0)))
+	case 7, 15, 31:
+		out = append(out, o.sandwich(c, es[0], es[1])...)
 	default:
 		k := 1
 		if !o.OneTx {
@@ -145,7 +171,9 @@ func (o *OLVM) Plan(c *Ctx) []hist.TxSpec {
 			if i > 0 && o.OneTx {
 				break
 			}
-			switch c.R.Intn(11) {
+			switch c.R.Intn(12) {
+			case 11:
+				out = append(out, o.sandwich(c, from, es[pick(c.R, len(es))])...)
 			case 8:
 				// nonce behind / wrong chain id: fail the consensus pre-checks (delivered by a byzantine proposer)
 				to := ethcmn.BytesToAddress(es[pick(c.R, len(es))].Addr)
